@@ -27,8 +27,12 @@ theorem winner_total_order :
     (∀ a b : Inst, keyLe a b → keyLe b a → a.id = b.id) :=
   ⟨keyLe_total, fun _ _ _ => keyLe_trans, fun _ _ => keyLe_antisymm⟩
 
-/-- colliding claims are resolved to the same winner whatever order the entries are scanned in
-(Go map iteration order; replicas holding the same entries). -/
+/-- colliding claims are resolved to the same winner whatever order the entries are scanned in.
+WHAT THIS MEANS: `d'` is a permutation of `d`, i.e. the two replicas hold *identical entry contents,
+token lists included*, and differ only in Go's map iteration order. That is the reading of "replicas
+holding the same entries" under which the property is proved: resolution is a function of the entry
+contents. It does NOT say that replicas which received the same UPDATES agree — they need not, see
+`winner_depends_on_delivery_order_witness` below. -/
 theorem resolve_perm_invariant (tok : Nat) {d d' : Desc} (hp : d.Perm d') (hn : (ids d).Nodup) :
     winner tok d none = winner tok d' none :=
   winner_perm tok hp hn
@@ -64,6 +68,44 @@ theorem merge_preserves_wf (cas : Bool) (now : Int) (this other : Desc) (h : WF 
     WF (merge cas now this other).state :=
   PfC05.merge_preserves_wf cas now this other h
 
+/-- **who holds a token after a merge** (the link between `merge` and the winner rule; this is what the
+judge's `wrong-winner` / `token-not-with-its-claimant` rules check on the implementation). `M` = the
+map built by the two loops of `mergeWithTime` before resolution (`merge_map_lww` says what it holds).
+Every entry of `M` survives with its identity, state and timestamp, and holds `t` iff it is the minimal
+claimant of `t` in `M` — also when `resolveConflicts` is skipped. -/
+theorem merge_owner_spec (cas : Bool) (now : Int) (this other : Desc) (h : WF this) (t : Nat) (i : Inst)
+    (hi : i ∈ (mergeAcc cas now this other).this) :
+    ∃ e, get? (merge cas now this other).state i.id = some e ∧ e.id = i.id ∧ e.state = i.state ∧ e.ts = i.ts ∧
+      (t ∈ e.tokens ↔ (claims t i ∧ ∀ j ∈ (mergeAcc cas now this other).this, claims t j → keyLe i j)) :=
+  PfC05.merge_owner_spec cas now this other h t i hi
+
+/-- the map a gossip merge builds before resolution is, per key, the last-writer-wins entry of the
+receiver's entry and the NORMALISED incoming entry (newer timestamp, or same timestamp and a removal of
+an entry that has not left; a missing receiver entry reads as timestamp 0, not left) -/
+theorem merge_map_lww (now : Int) (this other : Desc) (hn : (ids other).Nodup) (k : String) :
+    get? (mergeAcc false now this other).this k =
+      match get? (normalize other) k with
+      | none => get? this k
+      | some o =>
+        if o.ts > curTs (get? this k) ∨ (o.ts = curTs (get? this k) ∧ curLeft (get? this k) = false ∧ o.state = .LEFT)
+        then some o else get? this k := by
+  have hn' : (ids (normalize other)).Nodup := by
+    have : ids (normalize other) = ids other := by
+      unfold normalize ids; rw [List.map_map]; apply List.map_congr_left; intro i _; exact normInst_id i
+    rw [this]; exact hn
+  unfold mergeAcc
+  simp only [Bool.false_eq_true, if_false]
+  rw [get?_foldl _ _ k hn']
+  cases get? (normalize other) k with
+  | none => rfl
+  | some o =>
+    simp only [joinOpt, stepOpt, accept]
+    by_cases h1 : o.ts > curTs (get? this k)
+    · simp [h1]
+    · by_cases h2 : o.ts = curTs (get? this k) ∧ curLeft (get? this k) = false ∧ o.state = .LEFT
+      · simp [h1, h2]
+      · simp [h1, h2]
+
 /-- every state a replica can reach by merging peer updates and local writes is well-formed -/
 theorem reachable_wf {s : Desc} (h : Reachable s) : WF s := PfC05.reachable_wf h
 
@@ -82,6 +124,15 @@ theorem lookups_total_on_reachable {s : Desc} (h : Reachable s) (cfg : C01.Cfg) 
   let hw := PfC05.reachable_wf h
   PC01.walk_no_inconsistent cfg s key op now ⟨hw.nodup, hw.noconf⟩ hrf
 
+/-- the same through the real token-list construction (`getTokens`, the loser-tree merge of the
+per-instance lists in ANY map iteration order), for reachable states whose tokens are `uint32` values -/
+theorem lookups_total_on_reachable_any_order {s : Desc} (h : Reachable s) (hu : C01.TokensU32 s)
+    (order : Desc) (hperm : order.Perm s) (cfg : C01.Cfg) (key : Nat) (op : C01.Op) (now : Int) (hrf : 1 ≤ cfg.rf) :
+    C01.get cfg s (C01.getTokens order) key op now ≠ .error .inconsistentTokens ∧
+    C01.get cfg s (C01.getTokens order) key op now ≠ .error .panic := by
+  rw [PC01.getTokens_sorted s order hperm hu]
+  exact lookups_total_on_reachable h cfg key op now hrf
+
 /-- shuffle sharding (plain and with look-back, any size, identifier stream and time) over any
 reachable state never takes the inconsistent-token (panic) branch of `shuffleShard` (C12's checked
 model `shardIdsC`, tied to `Ring.ShuffleShard(WithLookback)` by C12's correspondence check). -/
@@ -91,8 +142,9 @@ theorem shuffle_shard_total_on_reachable {s : Desc} (h : Reachable s) (cfg : C12
   PC12.shardIds_total_on_wf cfg s (PfC05.reachable_wf h).noconf starts size period now
 
 /-- token-range computation over any reachable state never reports inconsistent token information
-and never panics (C14's model of `GetTokenRangesForInstance`), and returns ranges whenever the ring
-is usable for it (zone set and holding tokens). -/
+and never panics (C14's model of `GetTokenRangesForInstance`). NOTE: this is `PC14.ranges_never_inconsistent`,
+which holds for EVERY descriptor — the hypothesis `Reachable s` is not used; the theorem is listed
+here only so that the property's three lookup kinds appear side by side. It is C14's fact, not C05's. -/
 theorem token_ranges_total_on_reachable {s : Desc} (h : Reachable s) (za : Bool) (rf : Nat) (id : String) :
     C14.rangesForInstance s za rf id ≠ .error .inconsistent ∧ C14.rangesForInstance s za rf id ≠ .error .panic :=
   PC14.ranges_never_inconsistent s za rf id
@@ -129,6 +181,34 @@ theorem longlived_client_lookups_total (st : C13.Streams) (ccfg : C12.Cfg) (step
     rw [this, hm]; rfl
   have hw := PC01.walk_no_inconsistent rcfg d key op now hwf hrf
   exact ⟨e, by rw [e]; exact hw.1, by rw [e]; exact hw.2⟩
+
+/-! ### What is NOT claimed: the winner depends on the delivery order
+
+Three updates: `a@1 ACTIVE [7]`, `b@1 ACTIVE [7]`, `a@2 LEAVING [7]`. Delivered in two orders to two
+replicas starting empty, they end in two different well-formed states that no re-delivery of these
+updates changes any more: on the first, the LEAVING instance `a` keeps token 7 although the ACTIVE `b`
+claims it (when `a@2` arrives its token list equals the stored one, so the "tokens unchanged" shortcut
+skips resolution); on the second, `b` holds it. Only `verifyTokens` on the owners (lifecycler, not
+modelled) repairs this. The same divergence for a token handed over at disjoint times is
+`PC03.merge_diverges_on_token_handover`. The harness replays exactly this scenario on the real code
+(`C05.order`, first line of the stream). -/
+
+def wA1 : Desc := [{ id := "a", ts := 1, state := .ACTIVE, tokens := [7] }]
+def wB1 : Desc := [{ id := "b", ts := 1, state := .ACTIVE, tokens := [7] }]
+def wA2 : Desc := [{ id := "a", ts := 2, state := .LEAVING, tokens := [7] }]
+def wEnd1 : Desc := [wA1, wB1, wA2].foldl mergeState []
+def wEnd2 : Desc := [wA2, wB1, wA1].foldl mergeState []
+
+theorem winner_depends_on_delivery_order_witness :
+    [wA1, wB1, wA2].Perm [wA2, wB1, wA1] ∧
+    wEnd1 = [{ id := "a", ts := 2, state := .LEAVING, tokens := [7] }, { id := "b", ts := 1, state := .ACTIVE, tokens := [] }] ∧
+    wEnd2 = [{ id := "a", ts := 2, state := .LEAVING, tokens := [] }, { id := "b", ts := 1, state := .ACTIVE, tokens := [7] }] ∧
+    (Reachable wEnd1 ∧ Reachable wEnd2) ∧ (wf wEnd1 = true ∧ wf wEnd2 = true) ∧
+    (∀ d ∈ [wA1, wB1, wA2], mergeState wEnd1 d = wEnd1 ∧ mergeState wEnd2 d = wEnd2) := by
+  refine ⟨?_, by decide, by decide, ⟨?_, ?_⟩, by decide, by decide⟩
+  · exact (List.Perm.swap _ _ _).trans ((List.Perm.cons _ (List.Perm.swap _ _ _)).trans (List.Perm.swap _ _ _))
+  · exact .step false 0 wA2 (.step false 0 wB1 (.step false 0 wA1 .empty))
+  · exact .step false 0 wA1 (.step false 0 wB1 (.step false 0 wA2 .empty))
 
 /-! ### Non-vacuity -/
 
